@@ -74,8 +74,36 @@ class Workspace:
 
 
 # ------------------------------------------------------------------ reading emitted lexer tables
+_GO_INT = r"(-?\d+|0[xX][0-9a-fA-F]+|'(?:[^'\\\n]|\\.[0-9a-fA-F]*)+')"
+
+
+def go_int(tok):
+    """value of a Go integer or rune literal as the compiler reads it (the emitted table may spell bounds either way)"""
+    if not tok.startswith("'"):
+        return int(tok, 0)
+    body = tok[1:-1]
+    if not body.startswith("\\"):
+        if len(body) != 1:
+            raise ValueError("rune literal %s" % tok)
+        return ord(body)
+    simple = {"a": 7, "b": 8, "f": 12, "n": 10, "r": 13, "t": 9, "v": 11, "\\": 92, "'": 39, '"': 34}
+    c = body[1]
+    if c in simple and len(body) == 2:
+        return simple[c]
+    if c == "x" and len(body) == 4:
+        return int(body[2:], 16)
+    if c == "u" and len(body) == 6:
+        return int(body[2:], 16)
+    if c == "U" and len(body) == 10:
+        return int(body[2:], 16)
+    if c in "01234567" and len(body) == 4:
+        return int(body[1:], 8)
+    raise ValueError("rune literal %s" % tok)
+
+
 def parse_transtab(path):
-    """Re-reads lexer/transitiontable.go: list of rows {cases: [(lo,hi,next)], default: next or -1}."""
+    """Re-reads lexer/transitiontable.go: list of rows {cases: [(lo,hi,next)], default: next or -1}. Bounds may be written as decimal,
+    hexadecimal or rune literals: they are read as the Go compiler reads them."""
     src = open(path).read()
     rows = []
     parts = re.split(r"\n\t// S(\d+)\n", src)
@@ -83,11 +111,11 @@ def parse_transtab(path):
         sno, body = int(parts[i]), parts[i + 1]
         assert sno == len(rows), (sno, len(rows))
         cases = []
-        for m in re.finditer(r"case (?:r == (-?\d+)|(-?\d+) <= r && r <= (-?\d+)):[^\n]*\n\s*return (-?\d+|NoState)", body):
+        for m in re.finditer(r"case (?:r == %s|%s <= r && r <= %s):[^\n]*\n\s*return (-?\d+|NoState)" % (_GO_INT, _GO_INT, _GO_INT), body):
             if m.group(1) is not None:
-                lo = hi = int(m.group(1))
+                lo = hi = go_int(m.group(1))
             else:
-                lo, hi = int(m.group(2)), int(m.group(3))
+                lo, hi = go_int(m.group(2)), go_int(m.group(3))
             nxt = -1 if m.group(4) == "NoState" else int(m.group(4))
             cases.append((lo, hi, nxt))
         ncase = len(re.findall(r"\bcase\b", body.split("\n}")[0]))
